@@ -71,6 +71,16 @@ def check_exp(ctx: Ctx, c: Dict[str, Any], k_: int = 0) -> None:
             bad("ExpFlow.inverse", "inverse module differs from the exponential of the negated field", dtype=dt, what="inverse")
         if mf is not None and d is not None and max_err(mf, d) > tol:
             bad("ExpFlow.forward[inverse]", "forward(inverse=True) differs from the exponential of the negated field", dtype=dt, what="inverse")
+        # the exponential never changes the field it is given (steps = 0 included)
+        v_keep = v.clone()
+        for kw in (dict(scale=s), dict(scale=-s), dict(scale=0.5 * s), dict(scale=s, inverse=True)):
+            guarded("expv", lambda: U.expv(v, steps=k, align_corners=ac, **kw), dtype=dt, role="input")
+            if max_err(v, v_keep) > 0:
+                bad("expv", f"changed its input field (call with {kw})", dtype=dt, what="mutates")
+                v = v_keep.clone()
+        guarded("ExpFlow", lambda: ExpFlow(scale=-s, steps=k, align_corners=ac)(v), dtype=dt, role="input")
+        if max_err(v, v_keep) > 0:
+            bad("ExpFlow", "changed its input field", dtype=dt, what="mutates")
     # transforms and flow-field objects (float32 parameters)
     v32 = affine_field(n, ac, c["A"], c["t"], torch.float32)
     exp = affine_field(n, ac, c["EA"], c["Et"], torch.float64)
